@@ -145,6 +145,24 @@ class Package:
         self._mut = {}
         self._busy = set()
 
+    def stream_attrs(self):
+        if not hasattr(self, "_stream_attrs"):
+            st, decl = set(), set()
+            for m in self.mods.values():
+                for c in m.classes.values():
+                    for s_ in c.body:
+                        if isinstance(s_, ast.AnnAssign) and isinstance(s_.target, ast.Name):
+                            decl.add(s_.target.id)
+                            txt = ast.unparse(s_.annotation)
+                            if any(t in txt for t in ("BytesIO", "BinaryIO", "IO[", "StringIO", "BufferedReader", "RawIOBase", "BufferedIOBase")):
+                                st.add(s_.target.id)
+            self._stream_attrs, self._declared_attrs = st, decl
+        return self._stream_attrs
+
+    def declared_attrs(self):
+        self.stream_attrs()
+        return self._declared_attrs
+
     def resolve(self, m, q, call):
         f = call.func
         if isinstance(f, ast.Name):
@@ -443,6 +461,17 @@ class Alias:
                         must.add(tg.id)
         return must
 
+    def _is_stream(self, e):
+        """Declared as a stream wherever the package declares an attribute of that name (class-level annotation: BytesIO, BinaryIO, IO[...])."""
+        return isinstance(e, ast.Attribute) and e.attr in self.pkg.stream_attrs()
+
+    def _maybe_stream(self, e):
+        """Not known to be something else: an attribute the package declares only with non-stream types (locks, lists, str) is not a
+        stream; locals / undeclared attributes may be one."""
+        if isinstance(e, ast.Attribute):
+            return e.attr in self.pkg.stream_attrs() or e.attr not in self.pkg.declared_attrs()
+        return isinstance(e, (ast.Name, ast.Subscript))
+
     def sites(self):
         """[(node, text, definite)]"""
         out = []
@@ -473,10 +502,32 @@ class Alias:
                     and not isinstance(n.value, (ast.Constant, ast.JoinedStr)) and isinstance(n.op, (ast.Add, ast.BitOr, ast.BitAnd, ast.Sub, ast.Mult)):
                 if isinstance(n.value, (ast.List, ast.ListComp, ast.Set, ast.Dict)) or self.d(n.value) < INF:
                     out.append((n, f"in-place {ast.unparse(n)[:60]} on a shared object", False))
+            if isinstance(n, (ast.With, ast.AsyncWith)):
+                # a stream of the observed object used as a context manager (directly or through contextlib.closing) is closed on exit
+                for it in n.items:
+                    ce = it.context_expr
+                    if isinstance(ce, ast.Call) and dotted(ce.func).split(".")[-1] == "closing" and ce.args:
+                        ce = ce.args[0]
+                    if isinstance(ce, (ast.Name, ast.Attribute, ast.Subscript)) and self.d(ce) == 0 and self._maybe_stream(ce):
+                        out.append((n, f"with {ast.unparse(ce)[:60]}: closes a stream that belongs to the observed object on exit",
+                                    literal(ce) and self._is_stream(ce)))
             if isinstance(n, ast.Call):
                 f = n.func
                 if isinstance(f, ast.Attribute) and f.attr in MUTATORS and self.d(f.value) == 0:
                     site(n, f.value, f"mutating call {ast.unparse(f)[:60]}()")
+                if isinstance(f, ast.Attribute) and f.attr in ("close", "detach") and self.d(f.value) == 0 and self._maybe_stream(f.value):
+                    # a stream reachable from the observed object is closed: its content is gone for every later observer / to_json()
+                    out.append((n, f"{ast.unparse(f)[:60]}() closes a stream that belongs to the observed object", literal(f.value) and self._is_stream(f.value)))
+                cn = _canonical(self.m, f)
+                if (cn in LIB_OWNERS or (cn.split(".")[-1] in _OWNER_TAILS and cn.split(".")[0] in ("io", "_io", "codecs", "tempfile"))) and n.args \
+                        and self.d(n.args[0]) == 0:
+                    par = getattr(self, "_par", None)
+                    if par is None:
+                        par = self._par = {id(ch): p_ for p_ in ast.walk(self.fnode) for ch in ast.iter_child_nodes(p_)}
+                    dt_ = _detached(self.fnode, par, n)
+                    if dt_ != "yes":
+                        out.append((n, f"{cn}({ast.unparse(n.args[0])[:40]}) takes ownership of a stream that belongs to the observed object: closing / "
+                                    "finalising the wrapper closes it", literal(n.args[0]) and dt_ == "no"))
                 if dotted(f) in ("setattr", "delattr") and n.args and self.d(n.args[0]) == 0:
                     site(n, n.args[0], f"{dotted(f)}({ast.unparse(n.args[0])[:40]}, ...)")
                 res = self.pkg.resolve(self.m, self.q, n)
@@ -528,6 +579,9 @@ LIB_INERT = {"isinstance", "len", "type", "id", "bool", "repr", "str", "hasattr"
 # calls close()), so a wrapper that goes out of scope closes the caller's buffer -- unless `.detach()` hands the stream back first
 LIB_OWNERS = {"io.TextIOWrapper", "io.BufferedReader", "io.BufferedRandom", "io.BufferedWriter", "io.BufferedRWPair", "_io.TextIOWrapper",
               "_io.BufferedReader", "codecs.StreamReaderWriter", "codecs.EncodedFile", "tempfile.SpooledTemporaryFile"}
+
+
+_OWNER_TAILS = {x.split(".")[-1] for x in LIB_OWNERS}
 
 
 def class_bases(mods):
